@@ -3,7 +3,7 @@
    Nothing but statements, `exact`, Print Assumptions. *)
 From Coq Require Import List ZArith.
 From FwdLib Require Import Bytes.
-From G08 Require Import Tables Timeout OnceT ObOnce ObTimeout ObIsolated.
+From G08 Require Import Tables Timeout OnceT ObOnce ObTimeout ObIsolated ObZeroTimeout.
 Open Scope Z_scope.
 
 (* any number of callers of Read / Write / RemoteAddr / LocalAddr / Header, each with its own context deadline, any
@@ -54,6 +54,19 @@ Theorem T08_other_connection_unaffected : forall (RA RB : Type) resA arrA tmoA t
 Proof. exact (fun RA RB resA arrA tmoA toA cdlA resB arrB tmoB toB cdlB orA ofA =>
   other_connection_unaffected RA RB resA arrA tmoA toA cdlA resB arrB tmoB toB cdlB orA ofA t_once_recheck t_once_fast). Qed.
 Print Assumptions T08_other_connection_unaffected.
+
+(* zero / unset ReadHeaderTimeout means NO limit: the connection gets the listener's value verbatim (ob_zero_timeout), and
+   with a non-positive timeout and callers that bring no deadline of their own (Read / Write / RemoteAddr / LocalAddr use
+   context.Background) the timeout branch is never taken and the connection is never closed by this code - however long
+   the peer stalls in the middle of the header *)
+Theorem T08_zero_timeout_is_no_limit : forall (R : Type) (res : nat -> R) (arrival : nat -> option Z) (tmo : R)
+    (listener_timeout dflt : Z) (cdl : nat -> option Z) n t s,
+  steps R res arrival tmo (accept_timeout t_accept_timeout_verbatim dflt listener_timeout) cdl t_once_recheck t_once_fast (init R n t) s ->
+  listener_timeout <= 0 -> (forall i, cdl i = None) -> how R s <> Some false /\ closed R s = None.
+Proof. exact (fun R res arrival tmo lt dflt cdl n t s =>
+  zero_listener_timeout_is_no_limit R res arrival tmo t_accept_timeout_verbatim lt dflt cdl t_once_recheck t_once_fast n t s
+    ob_zero_timeout ob_once). Qed.
+Print Assumptions T08_zero_timeout_is_no_limit.
 
 (* the shapes these theorems transcribe are the ones in the source *)
 Theorem T08_timed_model_shapes : t_timeout_bounds_header_read = true /\ t_pkg_vars = [b "V1Identifier"; b "V2Identifier"].
